@@ -295,11 +295,11 @@ func (r *Rng) xmlNode(g *XGen, depth int) *XNode {
 						used[k] = true
 						switch k {
 						case 'C':
-							n.Kids = append(n.Kids, &XNode{Kind: 'C', Text: r.Pick([]string{" note ", "x", "a-b"})})
+							n.Kids = append(n.Kids, &XNode{Kind: 'C', Text: r.Pick([]string{" note ", "x", "a-b", "2024", "true", "1.5", " 7 "})})
 						case 'P':
-							n.Kids = append(n.Kids, &XNode{Kind: 'P', Target: r.Pick([]string{"pi", "target"}), Text: r.Pick([]string{"a=1", "do it"})})
+							n.Kids = append(n.Kids, &XNode{Kind: 'P', Target: r.Pick([]string{"pi", "target"}), Text: r.Pick([]string{"a=1", "do it", "42", "false"})})
 						default:
-							n.Kids = append(n.Kids, &XNode{Kind: 'D', Text: r.Pick([]string{"DOCTYPE x", "ELEMENT a"})})
+							n.Kids = append(n.Kids, &XNode{Kind: 'D', Text: r.Pick([]string{"DOCTYPE x", "ELEMENT a", "12", "true"})})
 						}
 						continue
 					}
@@ -330,11 +330,11 @@ func (r *Rng) xmlNode(g *XGen, depth int) *XNode {
 			if g.Comments && r.P(12) {
 				switch r.Intn(3) {
 				case 0:
-					n.Kids = append(n.Kids, &XNode{Kind: 'C', Text: r.Pick([]string{" note ", "x", "a-b", ""})})
+					n.Kids = append(n.Kids, &XNode{Kind: 'C', Text: r.Pick([]string{" note ", "x", "a-b", "", "2024", "true", "1.5", " 7 "})})
 				case 1:
-					n.Kids = append(n.Kids, &XNode{Kind: 'P', Target: r.Pick([]string{"pi", "target"}), Text: r.Pick([]string{"", "a=1", "do it"})})
+					n.Kids = append(n.Kids, &XNode{Kind: 'P', Target: r.Pick([]string{"pi", "target"}), Text: r.Pick([]string{"", "a=1", "do it", "42", "false"})})
 				default:
-					n.Kids = append(n.Kids, &XNode{Kind: 'D', Text: r.Pick([]string{"DOCTYPE x", "ELEMENT a"})})
+					n.Kids = append(n.Kids, &XNode{Kind: 'D', Text: r.Pick([]string{"DOCTYPE x", "ELEMENT a", "12", "true"})})
 				}
 				lastWasText = false
 				continue
@@ -404,22 +404,53 @@ func (c *cur) decOpt() DecOpt {
 	return o
 }
 
+// viaHistory brings a boolean option (known to be at its default `def`) to `want` through one of
+// three call histories, so that the argument-less forms of the setters are exercised by every
+// property that sets options: explicit argument; toggle form (from the default, or after the
+// explicit opposite); or leaving the default alone.
+func viaHistory(set func(...bool), want, def bool, h int) {
+	switch h % 3 {
+	case 0:
+		set(want)
+	case 1:
+		if want != def {
+			set()
+		} else {
+			set(!def)
+			set()
+		}
+	default:
+		if want != def {
+			set(want)
+		}
+	}
+}
+
 // apply sets the options through the real setters (resetOptions restores them afterwards).
 func (o DecOpt) apply() {
+	h := 0
+	for _, ch := range o.enc() {
+		h = (h*31 + int(ch)) & 0xffff
+	}
 	mxj.SetAttrPrefix(o.AttrPrefix)
-	mxj.CoerceKeysToLower(o.Lower)
-	mxj.CoerceKeysToSnakeCase(o.Snake)
-	mxj.DecodeSimpleValuesAsMap(o.AsMap)
-	mxj.IncludeTagSeqNum(o.SeqNum)
-	mxj.DisableTrimWhiteSpace(o.KeepSpace)
+	viaHistory(mxj.CoerceKeysToLower, o.Lower, false, h)
+	viaHistory(mxj.CoerceKeysToSnakeCase, o.Snake, false, h/3)
+	viaHistory(mxj.DecodeSimpleValuesAsMap, o.AsMap, false, h/9)
+	viaHistory(mxj.IncludeTagSeqNum, o.SeqNum, false, h/27)
+	// DisableTrimWhiteSpace() without argument means "true", it is not a toggle
+	if o.KeepSpace && h%2 == 1 {
+		mxj.DisableTrimWhiteSpace()
+	} else {
+		mxj.DisableTrimWhiteSpace(o.KeepSpace)
+	}
 	if o.KeyPrefix != "" && o.KeyPrefix != "#" {
 		mxj.SetGlobalKeyMapPrefix(o.KeyPrefix)
 	}
-	mxj.XMLEscapeCharsDecoder(o.EscDec)
-	mxj.CastValuesToInt(o.ToInt)
-	mxj.CastValuesToFloat(o.ToFloat)
-	mxj.CastValuesToBool(o.ToBool)
-	mxj.CastNanInf(o.NanInf)
+	viaHistory(mxj.XMLEscapeCharsDecoder, o.EscDec, false, h/81)
+	viaHistory(mxj.CastValuesToInt, o.ToInt, false, h/243)
+	viaHistory(mxj.CastValuesToFloat, o.ToFloat, true, h/729)
+	viaHistory(mxj.CastValuesToBool, o.ToBool, true, h/2187)
+	viaHistory(mxj.CastNanInf, o.NanInf, false, h/6561)
 	if o.SkipSet {
 		set := map[string]bool{}
 		for _, s := range o.Skip {
